@@ -12,10 +12,63 @@ import (
 )
 
 type tr struct {
-	fset    *token.FileSet
-	slices  map[string]string // local ident -> Lean list literal (for `xs := []string{...}`)
-	byteVar map[string]string // inside byte loop: "s[i]" -> lean var
-	known   map[string]string // Go func name (same package / helpers.X) -> Lean name
+	fset     *token.FileSet
+	slices   map[string]string // local ident -> Lean list literal (for `xs := []string{...}`)
+	byteVar  map[string]string // inside byte loop: "s[i]" -> lean var
+	known    map[string]string // Go func name (same package / helpers.X) -> Lean name
+	pkg      *pkgFiles         // the package being translated: unexported helpers and package-level string slices are followed into it
+	emit     func(def string)  // receives the definitions of helpers translated on the way (before the definition that uses them)
+	listVars map[string]bool   // identifiers of type []string (parameters)
+	busy     map[string]bool   // helpers being translated (no recursion)
+}
+
+// pkgSlices: package-level `var name = []string{"…", …}` declarations as Lean list literals
+func (t *tr) pkgSlices() map[string]string {
+	out := map[string]string{}
+	if t.pkg == nil {
+		return out
+	}
+	for _, f := range t.pkg.files {
+		for _, d := range f.Decls {
+			gd, ok := d.(*ast.GenDecl)
+			if !ok || gd.Tok != token.VAR {
+				continue
+			}
+			for _, sp := range gd.Specs {
+				vs, ok := sp.(*ast.ValueSpec)
+				if !ok || len(vs.Names) != 1 || len(vs.Values) != 1 {
+					continue
+				}
+				cl, ok := vs.Values[0].(*ast.CompositeLit)
+				if !ok {
+					continue
+				}
+				at, ok := cl.Type.(*ast.ArrayType)
+				if !ok || at.Len != nil || exprString(at.Elt) != "string" {
+					continue
+				}
+				var items []string
+				good := true
+				for _, el := range cl.Elts {
+					bl, isLit := el.(*ast.BasicLit)
+					if !isLit || bl.Kind != token.STRING {
+						good = false
+						break
+					}
+					sv, err := strconv.Unquote(bl.Value)
+					if err != nil {
+						good = false
+						break
+					}
+					items = append(items, leanStr(sv))
+				}
+				if good {
+					out[vs.Names[0].Name] = "([" + strings.Join(items, ", ") + "] : List Str)"
+				}
+			}
+		}
+	}
+	return out
 }
 
 var leanKeywords = map[string]bool{"open": true, "close": true, "end": true, "at": true, "from": true, "in": true, "then": true, "else": true, "if": true, "fun": true, "let": true, "have": true, "show": true, "match": true, "with": true, "do": true, "where": true, "def": true, "theorem": true, "instance": true, "namespace": true, "section": true, "variable": true, "import": true, "prefix": true, "infix": true, "notation": true, "macro": true, "syntax": true, "deriving": true, "structure": true, "class": true, "inductive": true, "mutual": true, "private": true, "protected": true, "partial": true, "unsafe": true, "nomatch": true, "fix": true, "val": true}
@@ -208,6 +261,23 @@ func (t *tr) expr(e ast.Expr) (string, error) {
 		}
 		if l, ok := t.known[fn]; ok {
 			return "(" + l + " " + strings.Join(args, " ") + ")", nil
+		}
+		// an unexported helper of the same package: translated as a definition of its own, first
+		if id, isIdent := x.Fun.(*ast.Ident); isIdent && t.pkg != nil && t.emit != nil && !t.busy[id.Name] {
+			if hfd := t.pkg.fn(id.Name); hfd != nil {
+				sub := &tr{fset: t.fset, known: t.known, pkg: t.pkg, emit: t.emit, busy: map[string]bool{id.Name: true}}
+				for k := range t.busy {
+					sub.busy[k] = true
+				}
+				lname := "h_" + id.Name
+				def, err := sub.funcDef(hfd, lname)
+				if err != nil {
+					return "", fmt.Errorf("%v (in helper %s)", err, id.Name)
+				}
+				t.emit("/-- translated from the helper `" + id.Name + "` (" + t.fset.Position(hfd.Pos()).String() + ") -/\n" + def + "\n")
+				t.known[id.Name] = lname
+				return "(" + lname + " " + strings.Join(args, " ") + ")", nil
+			}
 		}
 		return "", t.errf(e, "call to %s", fn)
 	}
@@ -413,9 +483,28 @@ func (t *tr) stmts(list []ast.Stmt, cont string, wrap func(string) string) (stri
 		if x.Value != nil {
 			val = leanIdent(exprString(x.Value))
 		}
-		body, err := t.stmts(x.Body.List, "none", func(e string) string { return "(some " + e + ")" })
-		if err != nil {
-			return "", err
+		var body string
+		if !(t.listVars[coll] && x.Value == nil && x.Key != nil) {
+			body, err = t.stmts(x.Body.List, "none", func(e string) string { return "(some " + e + ")" })
+			if err != nil {
+				return "", err
+			}
+		}
+		if t.listVars[coll] {
+			// a []string parameter: `for _, v := range xs` or `for i := range xs { … xs[i] … }`
+			elem := val
+			if x.Value == nil && x.Key != nil {
+				elem = "e_" + key
+				t.byteVar[coll+"["+exprString(x.Key)+"]"] = elem
+				body, err = t.stmts(x.Body.List, "none", func(e string) string { return "(some " + e + ")" })
+				delete(t.byteVar, coll+"["+exprString(x.Key)+"]")
+				if err != nil {
+					return "", err
+				}
+			} else if key != "_" {
+				return "", t.errf(s, "index and value over a string slice")
+			}
+			return "(match Go.listFirstSome " + leanIdent(coll) + " (fun " + elem + " => " + body + ") with | some r_ => " + wrap("r_") + " | none => " + after + ")", nil
 		}
 		if l, ok := t.slices[coll]; ok {
 			if key != "_" {
@@ -452,6 +541,9 @@ func byteLoopHeader(f *ast.ForStmt) (iv, sv string, ok bool) {
 }
 
 func leanType(e ast.Expr) (string, bool) {
+	if at, ok := e.(*ast.ArrayType); ok && at.Len == nil && exprString(at.Elt) == "string" {
+		return "List Str", true
+	}
 	switch exprString(e) {
 	case "string":
 		return "Str", true
@@ -461,14 +553,17 @@ func leanType(e ast.Expr) (string, bool) {
 		return "Bool", true
 	case "int":
 		return "Nat", true
+	case "[]string":
+		return "List Str", true
 	}
 	return "", false
 }
 
 // funcDef translates a whole function declaration to a Lean `def`.
 func (t *tr) funcDef(fd *ast.FuncDecl, leanName string) (string, error) {
-	t.slices = map[string]string{}
+	t.slices = t.pkgSlices()
 	t.byteVar = map[string]string{}
+	t.listVars = map[string]bool{}
 	var params []string
 	for _, f := range fd.Type.Params.List {
 		ty, ok := leanType(f.Type)
@@ -476,6 +571,9 @@ func (t *tr) funcDef(fd *ast.FuncDecl, leanName string) (string, error) {
 			return "", t.errf(f, "parameter type %s", exprString(f.Type))
 		}
 		for _, n := range f.Names {
+			if ty == "List Str" {
+				t.listVars[n.Name] = true
+			}
 			params = append(params, "("+leanIdent(n.Name)+" : "+ty+")")
 		}
 	}
